@@ -85,6 +85,12 @@ TLoad == /\ Ev.ev = "Load" /\ Ev.exc = "None"
          /\ Load(Ev.m, Ev.f, Ev.k) /\ Agree(Ev.m) /\ DiskAgree
 TFromFile == /\ Ev.ev = "FromFile" /\ Ev.exc = "None"
              /\ FromFile(Ev.m, Ev.f, Ev.k) /\ Agree(Ev.m) /\ DiskAgree
+TBadArgs == /\ Ev.ev = "UpdateBadArgs" /\ Ev.exc = "ValueError"
+            /\ UpdateBadArgs(Ev.m, Ev.which) /\ Agree(Ev.m)
+TVoigtOk == /\ Ev.ev = "Voigt" /\ Ev.exc = "None"
+            /\ VoigtOk(Ev.ms, Par) /\ \A k \in 1..Len(Ev.ms) : Agree(Ev.ms[k])
+TVoigtRejected == /\ Ev.ev = "Voigt" /\ Ev.exc = "ValueError"
+                  /\ VoigtRejected(Ev.ms, Par) /\ \A k \in 1..Len(Ev.ms) : Agree(Ev.ms[k])
 TLoadBadName == /\ Ev.ev = "LoadBadName" /\ Ev.exc = "ValueError"
                 /\ LoadBadName(Ev.m)
                 /\ (Has(Ev.obs, Ev.m) /\ cfg[Ev.m] # NULL) => Agree(Ev.m)
@@ -92,6 +98,7 @@ TLoadBadName == /\ Ev.ev = "LoadBadName" /\ Ev.exc = "ValueError"
 Bound == \/ TCreate \/ TUpdateOk \/ TUpdateRejected \/ TUpdateAbsent
          \/ TUpdateAllOk \/ TUpdateAllPartial
          \/ TSavePostfix \/ TSaveWhole \/ TSaveCorrupt \/ TLoad \/ TFromFile \/ TLoadBadName
+         \/ TBadArgs \/ TVoigtOk \/ TVoigtRejected
 
 \* ---------------------------------------------------------------- diagnosis (names only)
 Touched == IF Has(Ev, "ms") THEN {Ev.ms[k] : k \in 1..Len(Ev.ms)} ELSE {Ev.m}
@@ -112,6 +119,11 @@ Diagnose ==
     ELSE IF Ev.ev \in {"SavePostfix", "SaveWholeFile"} THEN "archive-differs-after-save"
     ELSE IF Ev.ev = "SaveCorrupt" THEN (IF Ev.exc # "ValueError" THEN "corrupt-save-not-refused" ELSE "corrupt-save-wrote")
     ELSE IF Ev.ev = "UpdateAll" THEN "update-all-post-state-differs"
+    ELSE IF Ev.ev = "UpdateBadArgs" THEN (IF Ev.exc # "ValueError" THEN "bad-arguments-not-refused" ELSE "bad-arguments-touched-history")
+    ELSE IF Ev.ev = "Voigt" /\ AllLive(Ev.ms) THEN
+        (IF Ev.exc = "None" /\ ~VoigtAccepts(Ev.ms, Par) THEN "voigt-accepted-where-spec-rejects"
+         ELSE IF Ev.exc # "None" /\ VoigtAccepts(Ev.ms, Par) THEN "voigt-rejected-where-spec-accepts"
+         ELSE "voigt-touched-a-mineral")
     ELSE "no-spec-action-" \o Ev.ev
 
 IsUpd == Ev.ev \in {"Update", "UpdateAll"}
